@@ -432,7 +432,7 @@ def rule_G(ctx):
                                                        dict(case, **{'piece': 'fixes 1 ... %d' % (n - 1), 'feature of the piece': got_piece, 'expected for the piece': want_piece,
                                                                      'feature of the track the piece was cut from': after, 'expected for that track': again})))
     # the running sum itself, on a feature whose first value is not 0 (ds is): Y[0] = 0, Y[i] = Y[i-1] + X[i]
-    fi_ = ctx.prog.func(OPS + '.Integrator.execute')
+    fi_ = ctx.prog.method(OPS + '.Integrator', 'execute') or ctx.prog.func(OPS + '.Integrator.execute')     # (its own or an inherited one)
     for xs in ([5.0, 1.0, 2.0, 4.0], [3.0], [2.0, 0.0, 0.0, 7.0, 0.0], [1.5, -1.5, 2.0]):
         t = T([O(k, EN(float(k), 0.0, 0.0), stamp(base_t + k)) for k in range(len(xs))], 'u', 't')
         n_cases += 1
